@@ -20,6 +20,9 @@
 (* Delivered items: <<r, c1, c2>> with c in {"ok", "errorvalue", "exc"}    *)
 (* for convert/fieldmap; <<r, "ok">> / <<r, "exc">> for rowmap;            *)
 (* <<r, f, "ok">> / <<r, f, "exc">> for rowmapmany.                        *)
+(* convert(.., where=w): the rows in P.skip are excluded by w; their       *)
+(* converters are NOT applied: the row passes through unchanged            *)
+(* (<<r, "raw", "raw">>) and can never fail, whatever its cells are.       *)
 (***************************************************************************)
 EXTENDS Naturals, Sequences, FiniteSets, Json, TLC
 
@@ -34,18 +37,20 @@ VARIABLES P,      \* [n, fail, policy, op]  constant along a behaviour
 vars == <<P, i, out, pc, last>>
 
 Cells(n) == (1..n) \X Fields
-Init == /\ P \in {p \in [n : 0..MaxRows, fail : SUBSET Cells(MaxRows), policy : Policies, op : Ops] :
-                     p.fail \subseteq Cells(p.n)}
+Init == /\ P \in {p \in [n : 0..MaxRows, fail : SUBSET Cells(MaxRows), policy : Policies, op : Ops, skip : SUBSET (1..MaxRows)] :
+                     p.fail \subseteq Cells(p.n) /\ p.skip \subseteq 1..p.n /\ (p.op # "convert" => p.skip = {})}
         /\ i = 0 /\ out = <<>> /\ pc = "run" /\ last = <<>>
 
-Fails(r, f) == <<r, f>> \in P.fail
+Skipped(r) == r \in P.skip
+Fails(r, f) == <<r, f>> \in P.fail /\ ~Skipped(r)      \* a converter that is not applied cannot fail
 RowFails(r) == Fails(r, 1) \/ Fails(r, 2)
 CellOut(r, f) == IF ~Fails(r, f) THEN "ok" ELSE IF P.policy = "inline" THEN "exc" ELSE "errorvalue"
 
 \* items delivered for input row r and whether the exception surfaces while producing them
 Produced(r) ==
   CASE P.op \in {"convert", "fieldmap"} ->
-         IF P.policy = "true" /\ RowFails(r) THEN <<>> ELSE << <<r, CellOut(r, 1), CellOut(r, 2)>> >>
+         IF Skipped(r) THEN << <<r, "raw", "raw">> >>
+         ELSE IF P.policy = "true" /\ RowFails(r) THEN <<>> ELSE << <<r, CellOut(r, 1), CellOut(r, 2)>> >>
     [] P.op = "rowmap" ->
          IF ~RowFails(r) THEN << <<r, "ok">> >>
          ELSE IF P.policy = "inline" THEN << <<r, "exc">> >> ELSE <<>>
@@ -81,7 +86,7 @@ RaisedAtFirstFailure ==
 \* a non-failing row is always delivered in full, in input order
 NonFailingUntouched ==
   /\ \A k \in 1..Len(out) : LET it == out[k] IN
-        P.op \in {"convert", "fieldmap"} => \A f \in Fields : ~Fails(it[1], f) => it[f + 1] = "ok"
+        P.op \in {"convert", "fieldmap"} => \A f \in Fields : ~Fails(it[1], f) => it[f + 1] = (IF Skipped(it[1]) THEN "raw" ELSE "ok")
   /\ \A k \in 1..(Len(out) - 1) : RowOf(out[k]) <= RowOf(out[k + 1])
   /\ (pc = "done" => \A r \in 1..P.n : ~RowFails(r) => \E k \in 1..Len(out) : RowOf(out[k]) = r)
 \* convert / fieldmap keep the failing row (False, inline); rowmap / rowmapmany drop it under False
@@ -91,6 +96,8 @@ KeepOrDrop == pc = "done" /\ P.policy = "false" =>
       ELSE IF P.op = "rowmap" THEN \A k \in 1..Len(out) : out[k][1] # r
       ELSE \A k \in 1..Len(out) : out[k][1] = r => out[k][3] = "ok"
 
-Emit == pc \in {"raised", "done"} => PrintT(ToJson([n |-> P.n, fail |-> P.fail, policy |-> P.policy, op |-> P.op,
+\* rows excluded by `where` are delivered unchanged and never make the view raise
+ExcludedUntouched == \A r \in P.skip : r <= i => \E k \in 1..Len(out) : out[k] = <<r, "raw", "raw">>
+Emit == pc \in {"raised", "done"} => PrintT(ToJson([n |-> P.n, fail |-> P.fail, policy |-> P.policy, op |-> P.op, skip |-> P.skip,
                                                      out |-> out, raised |-> pc = "raised", at |-> i]))
 =============================================================================
